@@ -17,17 +17,22 @@ META = {
             'max(|value|, width)) and PrettyFormatter\'s table index / width arithmetic are total as well. file / function / category '
             'may each be the NULL POINTER (rawmsg: options; null formats exactly as "", every placeholder has a value on the all-null '
             'context); an all-digit width text is accepted iff its mathematical value fits an int (no wrap-around: a width of ten or '
-            'more digits is never a format spec). The models are tied to '
+            'more digits is never a format spec). PrettyFormatter message SEQUENCES through one object are total for every column limit '
+            'maxCategoryWidth in [INT_MIN, INT_MAX] (INT_MAX = no limit; the remembered column never leaves [0, limit]). The formatter chain of '
+            'the one-line configure() (PrettyFormatter -> colour codes removed -> file) is total for every message text, an unfinished '
+            'ESC [ at the end of the text is kept and the remover returns. The models are tied to '
             'the code by constants re-read from the source on every run and by comparing their outputs with the real library; '
             'what no Gallina model reaches (PCRE2/QRegularExpression, Qt allocation, QJsonDocument, C++ memory safety) is covered '
             'only by the ASan+UBSan run of the real library with a time budget - bounded search, not proof.',
     'note': 'Trusted: Coq 8.16.1 kernel (vm_compute only for the closed constant checks), no axioms; tools/s2c/safety.py (regex '
             'translation of the qualifier list, operator characters, look-behind numbers, alignment characters, typeLetters, '
-            'Pretty size constants); extraction (ExtrOcamlBasic) and ocaml/drv_cleanup.ml, drv_safety.ml; harness/h_safety.cpp; '
+            'Pretty size constants and default limit, configure()\'s chain and colour-code expression); extraction (ExtrOcamlBasic) and ocaml/drv_cleanup.ml, drv_safety.ml; harness/h_safety.cpp; '
             'g++ ASan/UBSan. Modelled, not verified: QByteArray/QString primitives (indexOf, lastIndexOf, replace, trimmed, '
             'toInt, number), UTF-8 decoding of file/category (ASCII only in the diffed inputs). Outside any model: PCRE2, '
             'QRegularExpression, QJsonDocument, QDateTime, Qt allocation, JsonFormatter/SentryFormatter/CategoryFilter/'
-            'RegExpFilter internals (sanitizer + time budget only).',
+            'RegExpFilter internals (sanitizer + time budget only); the colour-code remover of configure() is a QRegularExpression - '
+            'its model (one left-to-right pass, ill-formed UTF-16 matches nothing) is tied by comparison only. Thread leg: independent '
+            'formatter objects on 2-4 threads under ASan / plain - a search, no model of concurrency.',
     'design_ref': 'DESIGN.md section 4, C14 (+ Appendix B, section 5 F6)',
     'engine': 'coq+extraction+harness',
 }
